@@ -253,7 +253,11 @@ func (g *inputGen) ty(depth int) *ITy {
 
 var inputPropPrefix = map[string]string{"str": "str", "int": "num", "bool": "flg", "float": "flt", "list": "lst", "map": "map", "obj": "obj"}
 
-func (g *inputGen) obj(depth, n int) *ITy {
+func (g *inputGen) obj(depth, n int) *ITy { return g.objWith(depth, n, false) }
+
+// objWith: optOnly = no property is required (each is optional, with or without a default): the empty map is a valid
+// document and nothing is guaranteed to be present unless defaulted.
+func (g *inputGen) objWith(depth, n int, optOnly bool) *ITy {
 	r := g.r
 	g.objSeq++
 	t := &ITy{T: "obj", ID: fmt.Sprintf("Obj%d", g.objSeq)}
@@ -277,8 +281,11 @@ func (g *inputGen) obj(depth, n int) *ITy {
 		case c < 8:
 			p.HasDefault = true
 		}
-		if depth == 0 && i == 0 && !p.Req && !p.HasDefault {
+		if depth == 0 && i == 0 && !p.Req && !p.HasDefault && !optOnly {
 			p.Req = true
+		}
+		if optOnly {
+			p.Req = false
 		}
 		if p.HasDefault {
 			p.Default = g.typed(pt)
@@ -415,6 +422,9 @@ type inputDocSite struct {
 	path  []any
 	ty    *ITy
 	isMap bool // obj sites: the document spells the object as a map (not inline)
+	// the value at this site is the bare value of the single property of an object spelled inline: a MAP put here would be
+	// read as the object itself, not as a value of the property
+	inlined bool
 }
 
 type inputDocGen struct {
@@ -422,6 +432,10 @@ type inputDocGen struct {
 	mode     string // typed | strings | mixed
 	sites    []inputDocSite
 	spelling map[string]bool
+	// omit: "" = random; "min" = every property that may be left out is left out; "objs" = every object-typed property is
+	// given and every other property that may be left out is left out (the nested objects are reached, their own
+	// optional properties are not given)
+	omit string
 }
 
 func inputPathPlus(p []any, x any) []any {
@@ -549,7 +563,7 @@ func (d *inputDocGen) doc(t *ITy, path []any) any {
 		return out
 	case "obj":
 		// a single-property object may be spelled as the bare value of that property
-		if len(t.Props) == 1 && r.chance(1, 3) {
+		if len(t.Props) == 1 && d.omit == "" && r.chance(1, 3) {
 			save := len(d.sites)
 			inner := d.doc(t.Props[0].Ty, path)
 			switch inner.(type) {
@@ -557,6 +571,11 @@ func (d *inputDocGen) doc(t *ITy, path []any) any {
 				d.sites = d.sites[:save] // a map would be read as the object itself: spell it normally
 			default:
 				d.spelling["obj:inline-single-property"] = true
+				for k := save; k < len(d.sites); k++ {
+					if len(d.sites[k].path) == len(path) {
+						d.sites[k].inlined = true
+					}
+				}
 				d.sites = append(d.sites, inputDocSite{path: path, ty: t, isMap: false})
 				return inner
 			}
@@ -566,6 +585,12 @@ func (d *inputDocGen) doc(t *ITy, path []any) any {
 		for _, p := range t.Props {
 			omit := false
 			switch {
+			case d.omit != "":
+				omittable := !(p.Req && !p.HasDefault) && !p.BadDefault
+				omit = omittable && (d.omit == "min" || p.Ty.T != "obj")
+				if omit {
+					d.spelling["omit:policy-"+d.omit] = true
+				}
 			case p.Req && !p.HasDefault:
 			case p.Req:
 				omit = r.chance(1, 3)
@@ -640,6 +665,18 @@ func (d *inputDocGen) violationsAt(s inputDocSite) []inputViolation {
 	vs := []inputViolation{{"null", func(any) any { return nil }}}
 	konst := func(kind string, vals ...any) {
 		v := vals[r.intn(len(vals))]
+		if _, isMap := v.(map[string]any); isMap && s.inlined {
+			// not a fault of this site: the map would be the (differently spelled) enclosing object; take a non-map constant
+			for _, w := range vals {
+				if _, m := w.(map[string]any); !m {
+					v = w
+					break
+				}
+			}
+			if _, still := v.(map[string]any); still {
+				return
+			}
+		}
 		vs = append(vs, inputViolation{kind, func(any) any { return v }})
 	}
 	switch t.T {
@@ -719,7 +756,8 @@ func (d *inputDocGen) violationsAt(s inputDocSite) []inputViolation {
 	case "obj":
 		if s.isMap {
 			if len(t.Props) != 1 {
-				konst("wrong-type", "notanobject", []any{})
+				// anything that is not a map (an object with exactly one property reads a non-map as that property)
+				konst("wrong-type", "notanobject", []any{}, []any{"a", "b"}, int64(7), true, 2.5, "")
 			}
 			vs = append(vs, inputViolation{"unknown-field", func(old any) any {
 				m, _ := old.(map[string]any)
@@ -943,11 +981,23 @@ func genInputSteps(r *rng, root *ITy) []inputStep {
 
 // ---- one case ------------------------------------------------------------------------------------------------------------------
 
-func runInputCase(r *rng, caseID string) map[string]any {
-	g := &inputGen{r: r}
-	root := g.obj(0, 1+r.intn(5))
+// genInputRoot draws the root object of an input schema.  Besides the general shape (1-5 properties, the first one a
+// scalar that is always present) two degenerate shapes are drawn on purpose: an object WITHOUT properties (the only valid
+// document is the empty map) and an object whose properties are all optional (the empty map is valid, nothing is
+// guaranteed to be there).  The second result names the root property whose default violates its own type, if any.
+func genInputRoot(r *rng, g *inputGen) (*ITy, string) {
+	var root *ITy
+	switch c := r.intn(20); {
+	case c < 2:
+		g.objSeq++
+		root = &ITy{T: "obj"}
+	case c < 5:
+		root = g.objWith(0, 1+r.intn(4), true)
+	default:
+		root = g.obj(0, 1+r.intn(5))
+	}
 	root.ID = "RootObject"
-	if r.chance(1, 4) {
+	if len(root.Props) > 0 && r.chance(1, 4) {
 		// a required reference to the input object of step s0 ("references to step-input objects")
 		root.Props = append(root.Props, IProp{Name: "cfg", Req: true, Ty: inputStepInputTy("s0")})
 	}
@@ -973,6 +1023,75 @@ func runInputCase(r *rng, caseID string) map[string]any {
 			}
 		}
 	}
+	return root, badName
+}
+
+// inputDeepCopy copies a document (maps, lists; scalars are values) so that no two uses share memory.
+func inputDeepCopy(v any) any {
+	switch t := v.(type) {
+	case map[string]any:
+		out := make(map[string]any, len(t))
+		for k, x := range t {
+			out[k] = inputDeepCopy(x)
+		}
+		return out
+	case map[any]any:
+		out := make(map[any]any, len(t))
+		for k, x := range t {
+			out[k] = inputDeepCopy(x)
+		}
+		return out
+	case []any:
+		out := make([]any, len(t))
+		for i, x := range t {
+			out[i] = inputDeepCopy(x)
+		}
+		return out
+	}
+	return v
+}
+
+// inputSDKOracle asks the real pluginsdk schema for its verdict on a document, on a FRESH copy of the workflow's input
+// schema: the input scope of a fresh Prepare (own registry) of the same workflow text, which no Execute has touched.
+// Returns nil when no fresh schema could be made.  Keys: valid, err (text, for the replay), norm (the tagged form of
+// Serialize(Unserialize(doc)), valid documents only).
+func inputSDKOracle(text string, doc any) map[string]any {
+	var out map[string]any
+	gr := guarded(20*time.Second, func() {
+		reg, f, err := newRegistry(nil)
+		if err != nil {
+			return
+		}
+		fresh, err := prepareYAML(reg, f, text, nil)
+		if err != nil {
+			return
+		}
+		sch := fresh.Input()
+		un, err := sch.Unserialize(inputDeepCopy(doc))
+		if err != nil {
+			msg := err.Error()
+			if len(msg) > 300 {
+				msg = msg[:300]
+			}
+			out = map[string]any{"valid": false, "err": msg}
+			return
+		}
+		out = map[string]any{"valid": true}
+		if ser, err := sch.Serialize(un); err == nil {
+			out["norm"] = encVal(ser)
+		} else {
+			out["serialize_err"] = err.Error()
+		}
+	})
+	if gr.Panic != "" {
+		return map[string]any{"panic": gr.Panic}
+	}
+	return out
+}
+
+func runInputCase(r *rng, caseID string) map[string]any {
+	g := &inputGen{r: r}
+	root, badName := genInputRoot(r, g)
 	steps := genInputSteps(r, root)
 	text := inputWorkflowYAML(root, steps)
 
@@ -990,6 +1109,8 @@ func runInputCase(r *rng, caseID string) map[string]any {
 			w := 1
 			if v.kind != "null" && v.kind != "wrong-type" {
 				w = 3
+			} else if v.kind == "wrong-type" && s.ty.T == "obj" {
+				w = 2 // a list or a scalar where an object is declared
 			}
 			for k := 0; k < w; k++ {
 				weighted = append(weighted, v)
@@ -1036,6 +1157,12 @@ func runInputCase(r *rng, caseID string) map[string]any {
 
 	s := newScript()
 	currentScript.Store(s)
+	// the real schema's verdict on a fresh copy of the schema (own registry, own Prepare, never executed)
+	s.probe.Store(true)
+	if sdk := inputSDKOracle(text, passed); sdk != nil {
+		out["sdk"] = sdk
+	}
+	s.probe.Store(false)
 	base := runtime.NumGoroutine()
 	reg, f, err := newRegistry(nil)
 	if err != nil {
